@@ -350,7 +350,6 @@ class IntervalTier(textgrid_tier.TextgridTier):
                     newTier.insertEntry(newEntry)
 
         if doShrink is True:
-            diff = end - start
             newEntryList = []
             for interval in newTier.entries:
                 if interval.end <= start:
@@ -387,7 +386,9 @@ class IntervalTier(textgrid_tier.TextgridTier):
                     # so if we've found it, move on
                     break
 
-            newMax = newTier.maxTimestamp - diff
+            # Same expression as for the entries, so an entry ending at the
+            # tier's end still ends exactly there
+            newMax = start + (newTier.maxTimestamp - end)
             newTier = newTier.new(entries=newEntryList, maxTimestamp=newMax)
 
         return newTier
